@@ -500,7 +500,8 @@ def match_known(k, desc, cls, obj):
         return False
     if "class_expr" in k:
         try:
-            if not eval(k["class_expr"], {"re": re, "json": json, "H": H}, {"c": cls, "e": cls.get("event", {})}):
+            # (c and e are globals of the expression so that generator expressions inside it can see them)
+            if not eval(k["class_expr"], {"re": re, "json": json, "H": H, "c": cls, "e": cls.get("event", {})}):
                 return False
         except Exception:
             return False
